@@ -242,3 +242,42 @@ pub fn ok_len_guard_exact(data: &[u8], hdr: usize, s: &str) -> Option<u8> {
     }
     Some(data[end])
 }
+
+// ---- decimal formatting into a stack buffer (R-CODEC-DECBUF) -------------------------------
+pub fn dec_bad_buffer_19(n: i64, out: &mut Vec<u8>) {
+    let mut buf = [0u8; 19];
+    let mut pos = buf.len();
+    let mut rest = n.unsigned_abs();
+    loop {
+        pos -= 1;
+        buf[pos] = b'0' + (rest % 10) as u8;
+        rest /= 10;
+        if rest == 0 {
+            break;
+        }
+    }
+    if n < 0 {
+        pos -= 1;
+        buf[pos] = b'-';
+    }
+    out.extend_from_slice(&buf[pos..]);
+}
+
+pub fn dec_ok_buffer_20(n: i64, out: &mut Vec<u8>) {
+    let mut buf = [0u8; 20];
+    let mut pos = buf.len();
+    let mut rest = n.unsigned_abs();
+    loop {
+        pos -= 1;
+        buf[pos] = b'0' + (rest % 10) as u8;
+        rest /= 10;
+        if rest == 0 {
+            break;
+        }
+    }
+    if n < 0 {
+        pos -= 1;
+        buf[pos] = b'-';
+    }
+    out.extend_from_slice(&buf[pos..]);
+}
